@@ -134,3 +134,35 @@ func AfterEditLists() []gen.ListSpec {
 		{Nodes: []string{"a", "b", "c", "yy"}, Edges: []gen.EdgeSpec{{From: "yy", Type: tc, To: []string{"a"}}, {From: "a", Type: tc, To: []string{"b"}}}, Roots: []string{"yy"}},
 	}
 }
+
+// SameObjectGroup: the receiver is also the argument. op(a, a) must give what op(a, copy of a) gives.
+func SameObjectGroup(c *engine.Ctx, opName string, lists []gen.ListSpec, op func(a, b *sbom.NodeList) *sbom.NodeList) {
+	c.Group(opName + "-same-object")
+	c.Bound(opName+"-same-object", fmt.Sprintf("%s(a, a) for %d small lists (ill-formed included): equal to %s(a, fresh copy of a), operand unchanged", opName, len(lists), opName))
+	for i := range lists {
+		A := lists[i]
+		c.Case(func() any { return map[string]any{"a": A} }, func(t *engine.T) *engine.Violation {
+			a := A.Build()
+			before := gen.Snap(a)
+			got := op(a, a)
+			want := op(A.Build(), proto.Clone(A.Build()).(*sbom.NodeList))
+			t.Transitions(2)
+			t.Validated(1)
+			if got == nil || want == nil {
+				if got != want {
+					return engine.Violate(opName+"-same-object", "", "%s(a,a) nil=%v, %s(a,copy) nil=%v", opName, got == nil, opName, want == nil)
+				}
+				return nil
+			}
+			if g, w := gen.ModelOf(got).SetKey()+"|"+gen.Canon(got, nil), gen.ModelOf(want).SetKey()+"|"+gen.Canon(want, nil); g != w {
+				return engine.Violate(opName+"-same-object", "", "%s(a,a) differs from %s(a, fresh copy of a):\n same object: %s\n fresh copy:  %s", opName, opName, g, w)
+			}
+			if after := gen.Snap(a); after != before {
+				return engine.Violate(opName+"-same-object", "operand", "%s(a,a) changed a: %s", opName, gen.SnapDiff(before, after))
+			}
+			t.State(opName + "|same|" + A.String())
+			t.Outcome(opName + "-same-object-ok")
+			return nil
+		})
+	}
+}
